@@ -10,7 +10,7 @@ use std::ffi::OsString;
 
 pub static DEF: PropDef = PropDef {
     id: "C09",
-    rule: "random: trees of 1-10 entries with hostile names (blanks, newlines, quotes, backslashes, '{}', leading '-', '$()', glob characters, multi-byte) x one or two -exec/-execdir ... ; actions whose argument templates hold 0-4 arguments with 0-3 '{}' each (alone, embedded in text, adjacent, near-misses '{' '}' '{ }', empty arguments) x scripted exit statuses per invocation (0, 1..255, death by signal) x command {rec recorder, missing name, true/false, a file without execute permission, a directory, a path through a regular file} x position of the action (plain; '( -exec ; -printf T ) -o -printf F'; negated; behind a -type test; two actions in sequence so that the second runs only where the first succeeded). Run in process and (1 in 8) through the built binary. A second sub-run uses file names that are not valid UTF-8 (raw bytes 0x80-0xFF in a flat directory) with bare and embedded {} templates. Oracle: one record per entry on which the action is reached, in visit order and interleaved per file as the evaluation prescribes; argv == template with every {} replaced by the path (./basename for -execdir), byte for byte, one argv element per template argument; cwd == the harness cwd (-exec) or the entry's parent directory (-execdir); starting points are spelled c/r, ./c/r, c/r/, c//r, c/r/., c/r/./, c/up/../r, c/up/.. - for -execdir on a starting point whose spelling ends in '/', '.' or '..' both the textual view (directory = the text before the last component, name = that component) and the physical view (real parent directory, real name) are accepted, each as a (cwd, ./name) pair that names the entry; truth == (child status 0), observed through labelled -printf output; find's exit status 0 whatever the children do. Non-trivial = (a name contains a shell-special character and some template argument has >= 2 '{}') or a failing child changes the subsequent output. Distinct = distinct case JSON.",
+    rule: "random: trees of 1-10 entries with hostile names (blanks, newlines, quotes, backslashes, '{}', leading '-', '$()', glob characters, multi-byte) x one or two -exec/-execdir ... ; actions whose argument templates hold 0-4 arguments with 0-3 '{}' each (alone, embedded in text, adjacent, near-misses '{' '}' '{ }', empty arguments) x scripted exit statuses per invocation (0, 1..255, death by signal) x command {rec recorder, missing name, true/false, a file without execute permission, a directory, a path through a regular file} x position of the action (plain; '( -exec ; -printf T ) -o -printf F'; negated; behind a -type test; two actions in sequence so that the second runs only where the first succeeded). Run in process and (1 in 8) through the built binary. A second sub-run uses file names that are not valid UTF-8 (raw bytes 0x80-0xFF in a flat directory) with bare and embedded {} templates. Oracle: one record per entry on which the action is reached, in visit order and interleaved per file as the evaluation prescribes; argv == template with every {} replaced by the path (./basename for -execdir), byte for byte, one argv element per template argument; cwd == the harness cwd (-exec) or the entry's parent directory (-execdir); starting points are spelled c/r, ./c/r, c/r/, c//r, c/r/., c/r/./, c/up/../r, c/up/.. - for -execdir on a starting point whose spelling ends in '/', '.' or '..' both the textual view (directory = the text before the last component, name = that component) and the physical view (real parent directory, real name) are accepted, each as a (cwd, ./name) pair that names the entry; truth == (child status 0), observed through labelled -printf output; through the binary the command also writes a marker to the stdout it shares with find, and the markers and find's own -printf output must appear in evaluation order; find's exit status 0 whatever the children do. Non-trivial = (a name contains a shell-special character and some template argument has >= 2 '{}') or a failing child changes the subsequent output. Distinct = distinct case JSON.",
     assumptions: &[
         "starting points are spelled c/r or ./c/r (for -execdir the starting point itself is run from its parent as ./r)",
         "the recorder's log and script travel in the environment, not in argv",
@@ -213,6 +213,10 @@ pub fn check(ctx: &mut Ctx, c: &Case) -> Outcome {
             let ok = match a.cmd {
                 0 => {
                     want_records.push(views.iter().map(|(cwd, sub_path)| (cwd.clone(), a.template.iter().map(|t| substitute(t, sub_path)).collect())).collect());
+                    if c.binary {
+                        // through the binary the recorder also writes to the stdout it shares with find
+                        want_out.extend_from_slice(format!("R{rec_index}\0").as_bytes());
+                    }
                     let st = c.script.get(rec_index).copied().unwrap_or(0);
                     rec_index += 1;
                     st == 0
@@ -261,7 +265,7 @@ pub fn check(ctx: &mut Ctx, c: &Case) -> Outcome {
     let script = script_text(&c.script);
     let (status, stdout, stderr, panic) = if c.binary {
         let a: Vec<OsString> = args.iter().map(OsString::from).collect();
-        let o = ctx.run_bin(&find_bin(), &a, &BinOpts { env: vec![("VERIF_REC_LOG".into(), log.clone().into_os_string()), ("VERIF_REC_SCRIPT".into(), script.clone().into())], ..Default::default() });
+        let o = ctx.run_bin(&find_bin(), &a, &BinOpts { env: vec![("VERIF_REC_LOG".into(), log.clone().into_os_string()), ("VERIF_REC_SCRIPT".into(), script.clone().into()), ("VERIF_REC_STDOUT".into(), "1".into())], ..Default::default() });
         if !o.ordinary() {
             return fail("C09:abnormal-termination:binary", format!("find {args:?}\nexit {:?} signal {:?}\nstderr {:?}", o.code, o.signal, lossy(&o.stderr)));
         }
